@@ -18,6 +18,7 @@ EXPLANATION = (
     "farthest() order by a full-resolution quantity (a truncating projection such as in_seconds() in an ordering "
     "decision is reported) and pair < with closest, > with farthest; (5) the reconstructions of operands copy "
     "all four fields. NOT decided: DateTime.add's arithmetic itself (C03)."
+    ' Also: closest()/farthest() compare magnitudes (accessor results), never the Duration objects, whose native ordering is signed.'
 )
 
 W = {"hour": 3600 * 10**6, "minute": 60 * 10**6, "second": 10**6, "microsecond": 1}
